@@ -44,6 +44,13 @@ def model_vs_real(chk: core.Check, n_cases: int):
             sizes[int(rng.integers(0, nb))] = int(rng.integers(1, 4)); n = sum(sizes)
         a = int(rng.integers(0, n)); b = int(rng.integers(a + 1, n + 1))
         cases.append((sizes, a, b)); lines.append(f"FA {a} {b} " + " ".join(map(str, sizes)))
+    # long files: many small baskets (around the group sizes 32 / 64 / 128 / 256 a chunked merge might use), intervals touching k*group + 1 of them
+    for nb, a, b in [(65, 0, 65), (129, 0, 129), (129, 64, 129), (130, 65, 130), (257, 0, 257), (33, 0, 33), (130, 0, 100), (300, 17, 283)]:
+        sizes = [1] * nb
+        if (nb, a) in ((130, 0), (300, 17)):
+            sizes = [int(x) for x in rng.choice([0, 1, 1, 2], nb)]; sizes[0] = 1; sizes[-1] = 1
+            b = min(b, sum(sizes)); a = min(a, b - 1)
+        cases.append((sizes, a, b)); lines.append(f"FA {a} {b} " + " ".join(map(str, sizes)))
     out = core.lean_run("Driver/FinalArray.lean", "\n".join(lines) + "\n")
     it, br = make_interp("/Event:TMcEvent/m_mcParticleCol")
     diffs = []
@@ -263,8 +270,15 @@ def real_bytes(chk: core.Check, thorough: bool):
                 n_br += 1
                 n_br_file += 1
 
-                def decode(lo, hi):
-                    return interp.basket_array(data[bo[lo]:bo[hi]], bo[lo:hi + 1] - bo[lo], basket, br, {}, basket.member("fKeylen"), lib, {})
+                class _Basket:
+                    """what uproot hands to basket_array for the i-th basket of the re-partitioned branch: the real basket with its own number"""
+                    def __init__(self, num):
+                        self.basket_num = num
+                    def __getattr__(self, k):
+                        return getattr(basket, k)
+
+                def decode(lo, hi, num=0):
+                    return interp.basket_array(data[bo[lo]:bo[hi]], bo[lo:hi + 1] - bo[lo], _Basket(num), br, {}, basket.member("fKeylen"), lib, {})
                 # partitions of the n events into consecutive baskets
                 if thorough:
                     # every partition x every interval for three branches per file (512 x 55 each), a seeded sample of 24 partitions for the others
@@ -276,17 +290,24 @@ def real_bytes(chk: core.Check, thorough: bool):
                 for cut in parts:
                     bounds = [0, *cut, n]
                     try:
-                        pieces = {i: decode(bounds[i], bounds[i + 1]) for i in range(len(bounds) - 1)}
+                        pieces = {i: decode(bounds[i], bounds[i + 1], i) for i in range(len(bounds) - 1)}
                     except Exception as ex:
                         chk.failing_input("basket_array on a re-partitioned real basket", {"file": fn, "branch": name, "partition": bounds}, f"{type(ex).__name__}: {ex}", "decoded piece", "the result does not depend on how the events are distributed over baskets")
                         return
                     ivs = list(itertools.combinations(range(n + 1), 2)) if thorough else [tuple(sorted(rng.choice(n + 1, size=2, replace=False).tolist())) for _ in range(6)] + [(0, n), (n - 1, n)]
+                    n_req = 0
+                    # the same and overlapping intervals again (a second pass over the first requests): earlier requests must not change later ones
+                    ivs = ivs + ivs[:3] + [(0, n)]
                     for a, b in ivs:
                         ov = [i for i in pieces if bounds[i] < b and bounds[i + 1] > a]
                         keys = list(range(min(ov), max(ov) + 1)) if rng.random() < 0.7 else list(pieces)
                         rng.shuffle(keys)
+                        n_req += 1
                         try:
-                            got = interp.final_array({k: pieces[k] for k in keys}, int(a), int(b), bounds, lib, br, {})
+                            # as uproot does for every request on the same TBranch object: the needed baskets go through basket_array again (the first
+                            # requests of each partition; then the decoded pieces are reused to keep the sweep affordable), then final_array
+                            cur = {k: (decode(bounds[k], bounds[k + 1], k) if n_req <= 8 else pieces[k]) for k in keys}
+                            got = interp.final_array(cur, int(a), int(b), bounds, lib, br, {})
                             ok = same_nested(got.tolist(), full[a:b].tolist()) and got.fields == full.fields
                         except Exception as ex:
                             got, ok = f"{type(ex).__name__}: {ex}", False
